@@ -246,6 +246,9 @@ func TemplateText(parts []TmplPart) string {
 			sb.WriteString("{{ regexReplaceAllLiteral \"([a-z0-9])\" ." + t.A + " \"<$1>\" }}")
 		case "regex_count":
 			sb.WriteString("{{ count \"[a-z0-9]+\" ." + t.A + " }}")
+		case "root_index":
+			// the label through the root variable: no dot anywhere
+			sb.WriteString("{{ index $ " + Quote(t.A) + " }}")
 		case "fail_unixToTime":
 			sb.WriteString("{{ unixToTime ." + t.A + " }}")
 		case "fail_regex":
